@@ -68,6 +68,11 @@ def run(c):
     c.cov["traces_validated_against_impl"] = n_ok
     c.cov["trace_events"] = len(lines)
     c.cov["reads_by_path"] = paths
+    merged = [json.loads(l) for l in lines if '"ev":"ReadMerged"' in l]
+    c.cov["merged_histories_read"] = len(merged)
+    c.cov["reads_of_merged_histories"] = sum(len(e["reads"]) for e in merged)
+    if len(merged) < n // 6:
+        raise Broken("only %d sessions ended with concurrent edits merged on both replicas" % len(merged))
     e = json.loads(sessions[0][1])
     c.sample({"ev": e["ev"], "eid": e["eid"], "ops": e["ops"][:2]})
     e = json.loads([l for l in sessions[0] if '"ev":"Commit"' in l][0])
@@ -75,6 +80,7 @@ def run(c):
     for sess, idx, ev in failures:
         what = ev.get("err") or {"Append": "operation ids not fresh / entity id not the first operation's id",
                                  "Commit": "ids or payloads changed by the commit, or packs not split by author, or stored form does not hash to the id",
+                                 "ReadMerged": "after concurrent edits were merged on both replicas the readers do not all see the same sequence holding every operation of both sides once, in each side's order",
                                  "Read": "the reader does not see exactly the committed operations (ids, payload digests, authors, order, times, files, validity)"}.get(ev["ev"], ev["ev"])
         c.report("fidelity:%s:%s:%s" % (ev["ev"], ev.get("path", ""), what[:50]), "session %d event #%d %s %s: %s" % (sess, idx, ev["ev"], ev.get("path", ""), what),
                  {"session_index": sess, "event": {k: ev[k] for k in ev if k != "ops"}, "n_ops": len(ev.get("ops", []))})
